@@ -148,7 +148,11 @@ Definition required : list (string * policy) := [
   ("GCXS.T", Preserves []); ("GCXS.mT", Preserves []); ("GCXS.__getitem__", Preserves []); ("GCXS.asformat", Preserves []);
   ("GCXS.change_compressed_axes", Preserves []); ("GCXS.copy", Preserves []); ("GCXS.flatten", Preserves []);
   ("GCXS.from_coo", Preserves []); ("GCXS.reshape", Preserves []); ("GCXS.tocoo", Preserves []); ("GCXS.todok", Preserves []);
-  ("GCXS.transpose", Preserves []); ("GCXS._2d_transpose", Preserves []); ("gcxs_convert._resize", Preserves []);
+  ("GCXS.transpose", Preserves []); ("GCXS._2d_transpose", Preserves []);
+  (* round 7: GCXS / DOK squeeze and broadcast_to go through COO and back (conversions keep the fill) *)
+  ("GCXS.broadcast_to", Preserves []); ("GCXS.squeeze", Preserves []);
+  ("DOK.broadcast_to", Preserves []); ("DOK.squeeze", Preserves []);
+  ("_Compressed2d.astype", Computes); ("gcxs_convert._resize", Preserves []);
   ("CSR.transpose", Preserves []); ("CSC.transpose", Preserves []);
   ("DOK.__getitem__", Preserves []); ("DOK._fancy_getitem", Preserves []); ("DOK.asformat", Preserves []);
   ("DOK.from_coo", Preserves []); ("DOK.reshape", Preserves []); ("DOK.to_coo", Preserves []);
@@ -384,6 +388,8 @@ Definition diag_src (i : Shape.idx) : Shape.idx := match i with [k] => [k; k] | 
 Inductive discharge := ByGuard | ByCite (thm : string) | CampaignOnly | NotApplicable.
 
 Definition fill_discharge : list (string * discharge) := [
+  ("GCXS.broadcast_to", ByCite "C08.broadcast_to_den"); ("GCXS.squeeze", ByCite "C08.squeeze_den");
+  ("DOK.broadcast_to", ByCite "C08.broadcast_to_den"); ("DOK.squeeze", ByCite "C08.squeeze_den");
   ("common.abs", ByCite "C01.elemwise_api_den"); ("common.all", ByCite "C03.reduce_den");
   ("common.any", ByCite "C03.reduce_den"); ("common.asarray", ByCite "C05.conversion_chain_den");
   ("common.asnumpy", NotApplicable); ("common.astype", ByCite "C01.elemwise_api_den");
